@@ -134,6 +134,11 @@ impl TypedProgram {
                     if let Literal::NumUnsigned(size, UnsignedNumType::Usize) = literal {
                         const_sizes.insert(identifier, *size as usize);
                     }
+                } else {
+                    errs.push(CompilerError::InvalidLiteralType(
+                        literal.clone(),
+                        ty.clone(),
+                    ));
                 }
             }
         }
@@ -159,9 +164,8 @@ impl TypedProgram {
             }
         }
 
-        let mut errs = vec![];
         for (party, deps) in self.const_deps.iter() {
-            for (c, (ty, _)) in deps {
+            for (c, _) in deps {
                 let Some(party_deps) = consts.get(party) else {
                     continue;
                 };
@@ -169,24 +173,13 @@ impl TypedProgram {
                     continue;
                 };
                 let identifier = format!("{party}::{c}");
-                if literal.is_of_type(self, ty) {
-                    let bits = literal
-                        .as_bits(self, &const_sizes)
-                        .iter()
-                        .map(|b| *b as usize)
-                        .collect();
-                    env.let_in_current_scope(identifier.clone(), bits);
-                } else {
-                    errs.push(CompilerError::InvalidLiteralType(
-                        literal.clone(),
-                        ty.clone(),
-                    ));
-                }
+                let bits = literal
+                    .as_bits(self, &const_sizes)
+                    .iter()
+                    .map(|b| *b as usize)
+                    .collect();
+                env.let_in_current_scope(identifier.clone(), bits);
             }
-        }
-        if !errs.is_empty() {
-            errs.sort();
-            return Err(errs);
         }
         let mut input_gates = vec![];
         let mut wire = 2;
